@@ -4,6 +4,7 @@
   candidate list, excess function, cap and flag.  Helper lemmas: Lemmas/Search.lean.
 -/
 import GHEVerif.Lemmas.Search
+import GHEVerif.Lemmas.SearchNested
 
 namespace GHEVerif.C02
 open GHEVerif GHEVerif.Search
@@ -87,6 +88,25 @@ theorem unmet_too_small (counts : List Nat) (E : Nat → Rat → Rat) (cfg : Cfg
     · linarith [hs.1]
   · rw [hu] at hu'; injection hu' with hu'; subst hu'
     rcases pre_inr_bracket hp with ⟨_, a⟩ | ⟨_, a⟩ <;> linarith
+
+
+/-- `max_boreholes` in the nested searches: the field returned by `Bisection2D` / `BisectionZD` has
+    fewer boreholes than the cap whenever the chosen inner list is in non-decreasing order. -/
+theorem cap_respected_2D (nc : List (List Nat)) (E2 : Nat → Nat → Rat → Rat) (cfg : Cfg) (c : Nat)
+    (hcap : cfg.cap = some c) (l k : Nat) (hh : Rat) (tr : Trace2)
+    (h : bisect2D nc E2 cfg = (.selected l k hh, tr))
+    (hsorted : ∀ i j, i ≤ j → j < (nc.getD l []).length → (nc.getD l []).getD i 0 ≤ (nc.getD l []).getD j 0) :
+    (nc.getD l []).getD k 0 < c := by
+  obtain ⟨_, p, tr', h1⟩ := bisect2D_selected h
+  exact cap_respected _ _ cfg c hcap hsorted k hh p tr' h1
+
+theorem cap_respected_ZD (nc : List (List Nat)) (E2 : Nat → Nat → Rat → Rat) (sz : Nat → Nat → Rat) (cfg : Cfg)
+    (c : Nat) (hcap : cfg.cap = some c) (l k : Nat) (hh : Rat) (tr : Trace2)
+    (h : bisectZD nc E2 sz cfg = (.selected l k hh, tr))
+    (hsorted : ∀ i j, i ≤ j → j < (nc.getD l []).length → (nc.getD l []).getD i 0 ≤ (nc.getD l []).getD j 0) :
+    (nc.getD l []).getD k 0 < c := by
+  obtain ⟨_, _, ⟨h1, p, tr', hs⟩, _⟩ := bisectZD_selected h
+  exact cap_respected _ _ cfg c hcap hsorted k h1 p tr' hs
 
 /-- The code's last `else: pass` arm before the loop cannot be taken: the bisection starts only
     from a genuine bracket between candidate 0 and the largest allowed candidate. -/
